@@ -142,16 +142,27 @@ def mean_oracle(w, v, fb):
     return out
 
 
+REL_TOL = 1e-12      # float rounding of a weighted mean of at most a few hundred terms, relative to the largest sample of the window
+ABS_FLOOR = 1e-300   # products of a weight and a sample below the normal range of doubles
+
+
+def local_tol(terms):
+    """the tolerance on the weighted mean of ONE window: float arithmetic computes sum(w*x)/sum(w) over the window's
+    own samples with an error of a few ulps of the largest |x| carrying a positive weight, whatever the values elsewhere
+    in the signal are (the statement ties every output to the inputs of its own window only)"""
+    mags = [abs(float(x)) for wt, x in terms if wt > 0]
+    return REL_TOL * max(mags + [0.0]) + ABS_FLOOR
+
+
 def check_signal(w, v, fb, got, what, skip_undefined=False):
     """compare an output signal of the implementation with the property (mean, bounds, constants, boundary);
-    skip_undefined: an index whose valid weights sum to 0 has no weighted mean — nothing is demanded there"""
+    skip_undefined: an index whose valid weights sum to 0 has no weighted mean — nothing is demanded there.
+    Tolerances are local to the window of the index (local_tol); a copied boundary value is compared exactly"""
     n, D = len(v), len(w) // 2
     if not isinstance(got, list) or len(got) != n:
         return "%s: output has %s values for %d inputs" % (what, len(got) if isinstance(got, list) else got, n)
     want = mean_oracle(w, v, fb)
     valid = [x for x in v if x is not None]
-    scale = max([1.0] + [abs(float(x)) for x in valid])
-    tol = 1e-9 * scale
     const = len(set(valid)) == 1
     for i in range(n):
         e, g = want[i], got[i]
@@ -165,13 +176,20 @@ def check_signal(w, v, fb, got, what, skip_undefined=False):
             continue
         if g is None:
             return "%s: output[%d] is NaN, the weighted mean of the window is %s" % (what, i, float(e))
+        if math.isinf(g):
+            return "%s: output[%d] is %r, the weighted mean of the window is %s" % (what, i, g, float(e))
+        copied = (not fb and (i < D or i >= n - D))
+        if copied:
+            if Fraction(g) != e:
+                return "%s: output[%d] = %r, the unfiltered boundary value is %r" % (what, i, g, float(e))
+            continue
+        terms = window_terms(w, v, i)
+        tol = local_tol(terms)
         if abs(Fraction(g) - e) > tol:
-            copied = (not fb and (i < D or i >= n - D))
-            return "%s: output[%d] = %r, %s is %r" % (what, i, g, "the unfiltered boundary value" if copied else "the renormalised weighted mean of the window", float(e))
-        if not (not fb and (i < D or i >= n - D)):
-            vals = [t[1] for t in window_terms(w, v, i)]
-            if g < min(vals) - tol or g > max(vals) + tol:
-                return "%s: output[%d] = %r leaves the range [%r, %r] of its window" % (what, i, g, min(vals), max(vals))
+            return "%s: output[%d] = %r, the renormalised weighted mean of the window is %r" % (what, i, g, float(e))
+        vals = [t[1] for t in terms]
+        if g < min(vals) - tol or g > max(vals) + tol:
+            return "%s: output[%d] = %r leaves the range [%r, %r] of its window" % (what, i, g, min(vals), max(vals))
         if const and abs(g - valid[0]) > tol:
             return "%s: constant signal %r changed to %r at index %d" % (what, valid[0], g, i)
     return None
@@ -415,15 +433,28 @@ class P(Prop):
         p = rng.choice(self.WIDTHS) if rng.random() < 0.85 else rng.choice(self.BOUNDARY_WIDTHS[t])
         return {"t": t, "p": p, "fb": self.rand_fb(rng)}
 
+    # orders of magnitude met in one feature: a raw epoch / a sentinel / an accumulated quantity next to increments
+    OUTLIERS = [1.0e6, 6861234.75, 1.7e9, 4.0e12, 1.0e16, 1.0e20]
+
     def rand_signal(self, rng, n, style=None, nan=True, floats=False):
-        style = style or rng.choice(["int", "int", "const", "mono", "dyadic", "float" if floats else "int", "spike"])
+        style = style or rng.choice(["int", "int", "const", "mono", "dyadic", "float" if floats else "int", "spike",
+                                     "outlier", "scales" if floats else "outlier", "offset" if floats else "int"])
         if n == 0:
             return []
+        outlier = None
+        if style == "outlier":
+            # samples of very different orders of magnitude in ONE signal: a window that does not hold the large sample is
+            # still the mean of its own (small) samples. All large samples of a signal have the same sign (no cancellation
+            # between them: the model's weights may differ from the implementation's in the last bit)
+            outlier = rng.choice([1, 1, -1]) * rng.choice(self.OUTLIERS)
+            style = rng.choice(["tenth", "const", "int", "float" if floats else "dyadic", "dyadic"])
         if style == "int":
             v = [rng.randrange(-50, 51) for _ in range(n)]
         elif style == "const":
-            c = rng.choice([0, 1, -3, 7, 2.5, 1000])
+            c = rng.choice([0, 1, -3, 7, 2.5, 1000] + ([0.1] if outlier is not None else []))
             v = [c] * n
+        elif style == "tenth":
+            v = [rng.choice([0.1, 0.1, 0.1, 0.3, 25.013]) for _ in range(n)]
         elif style == "mono":
             x = rng.randrange(-20, 20)
             v = []
@@ -436,6 +467,14 @@ class P(Prop):
             v = [rng.randrange(-400, 401) / 8 for _ in range(n)]
         elif style == "float":
             v = [round(rng.uniform(-1000, 1000), 3) for _ in range(n)]
+        elif style == "scales":
+            # every sample at its own order of magnitude, one sign for the whole signal
+            sg = rng.choice([1, -1])
+            v = [sg * round(rng.uniform(1, 10), 3) * 10.0 ** rng.randrange(-6, 13) for _ in range(n)]
+        elif style == "offset":
+            # projected coordinates: a large common part, variations of a few metres
+            base = rng.choice([651234.25, 6861234.75, -12345.5, 1.6e9])
+            v = [base + round(rng.gauss(0, 3), 3) for _ in range(n)]
         else:
             v = [0] * n
             v[rng.randrange(n)] = rng.choice([1, 64, -8])
@@ -445,6 +484,13 @@ class P(Prop):
             while i < n:
                 v[i] = None
                 i += rng.randrange(2, 7)
+        if outlier is not None:
+            valid = [i for i in range(n) if v[i] is not None]
+            if valid:
+                where = rng.choice(["first", "first", "first", "any", "last", "two"])
+                at = {"first": valid[:1], "any": [rng.choice(valid)], "last": valid[-1:], "two": [valid[0], rng.choice(valid)]}[where]
+                for i in at:
+                    v[i] = float(outlier) * rng.choice([1, 1, 1.25, 3])
         return v
 
     def rand_dim(self, rng, names):
@@ -863,7 +909,28 @@ class P(Prop):
         if k["t"] == "list":
             t["window"] = len(k["w"])
             t["asymmetric"] = k["w"] != k["w"][::-1]
+        if kind != "badk":
+            t["dynamic_range"] = self.dynamic_range(case)
         return t
+
+    def dynamic_range(self, case):
+        """largest ratio between the magnitudes of two non-zero samples of one filtered signal, and where the largest sample is"""
+        best, where = 1.0, ""
+        try:
+            sigs = self.case_signals(case)
+        except KeyError:
+            return "n/a"
+        for s in sigs:
+            mags = [(abs(float(x)), i) for i, x in enumerate(s) if x is not None and x != 0]
+            if len(mags) < 2:
+                continue
+            r = max(mags)[0] / min(mags)[0]
+            if r > best:
+                first_valid = min(i for _, i in mags)
+                best, where = r, ("largest-first" if max(mags)[1] == first_valid else "largest-elsewhere")
+        if best < 1e4:
+            return "<1e4"
+        return (">=1e12 " if best >= 1e12 else ">=1e8 " if best >= 1e8 else ">=1e4 ") + where
 
     def step_degenerate(self, st):
         return len(st["x"]) == 0 or any(len(st[c]) and all(a is None for a in st[c]) for c in ("x", "y", "z"))
@@ -1690,6 +1757,19 @@ class P(Prop):
                     continue
                 i = rng.randrange(len(s))
                 s[i] = rng.choice([None, 0, 1, rng.randrange(-50, 50)])
+                c[nm] = s
+            if self._in_domain(c):
+                yield c
+        # one sample of another order of magnitude (the first valid one, any one): the other windows must not notice
+        for _ in range(12):
+            c = dict(case)
+            for nm in self._sig_names(case):
+                s = list(case[nm])
+                valid = [i for i in range(len(s)) if s[i] is not None]
+                if not valid:
+                    continue
+                i = valid[0] if rng.random() < 0.6 else rng.choice(valid)
+                s[i] = rng.choice([1, -1]) * rng.choice(self.OUTLIERS)
                 c[nm] = s
             if self._in_domain(c):
                 yield c
